@@ -23,7 +23,7 @@ func init() {
 
 func runC31(c *core.Ctx) {
 	accessorPairs(c, "C31.accessor-keys", 5, "native/service/header_sync/ont", "native/service/header_sync/neo", "native/service/header_sync/neo3", "native/service/header_sync/neo3legacy")
-	checkOntKeyHeightOrder(c)
+	checkOntKeyHeightOrder(c, "C31.key-height-order")
 	isHeader := func(v ssa.Value) bool { p, ok := ir.Strip(v).(*ssa.Parameter); return ok && p.Name() == "header" }
 	isBk := func(v ssa.Value) bool {
 		base, f, ok := fieldLoad(v)
